@@ -334,7 +334,7 @@ def concurrent_cases(rng, thorough):
 
 def gen(ctx):
     thorough = ctx.tier != "quick"
-    cs = concurrent_cases(ctx.rng, thorough) + pv.cross_kind_cases() + pv.back_to_back_cases() + pv.raw_chunk_cases() + pv.pad_boundary_cases() + pv.tx_tamper_cases() + pv.reg_branch_cases() + pv.forged_update_cases()
+    cs = concurrent_cases(ctx.rng, thorough) + pv.cross_kind_cases() + pv.back_to_back_cases() + pv.raw_chunk_cases() + pv.pad_boundary_cases() + pv.tx_tamper_cases() + pv.long_history_cases() + pv.reg_branch_cases() + pv.forged_update_cases()
     n = 350 if not thorough else 6000
     cs += [rand_history(ctx.rng) for _ in range(n)]
     return cs
